@@ -98,7 +98,7 @@ impl World {
         // ---- C10 transition monitors
         // (a finalize operation first runs finish_marking / mark_debt, which is collection work)
         if cb && !(op.is_fin() && (pre != P::Marked || (op.k == K::FinQuery && op.a == 1))) {
-            let allowed = self.credit_calls as f64 * 0.1 + 1e-9;
+            let allowed = self.credit_calls as f64 * PACING.mark_factor + 1e-9;
             if debt_post < debt_pre - allowed {
                 viol!(
                     "c10.debt_decreased_in_callback",
@@ -573,10 +573,11 @@ impl World {
         }
         let nreach = reach.iter().filter(|b| **b).count();
         let nshell = shells.iter().filter(|b| **b).count();
-        let extra = self.sc.sets as usize;
-        let cnt = self.metrics.total_gc_count();
-        if cnt != nreach + nshell + extra {
-            viol!("c02.count", "after two finish_cycle calls total_gc_count() = {cnt}, expected {nreach} reachable + {nshell} weakly referenced shells + {extra} root sets");
+        // (counted by the allocator over the harness' own objects, so that bystander allocations such
+        // as a root set's internal object do not enter the comparison)
+        let cnt = talloc::gc_live_count_range(self.base, self.base + 120);
+        if cnt != nreach + nshell {
+            viol!("c02.count", "after two finish_cycle calls {cnt} allocations are still held, expected {nreach} reachable + {nshell} weakly referenced shells");
         }
         for (i, o) in self.sh.objs.iter().enumerate() {
             if !reach[i] && !shells[i] && !o.freed {
@@ -593,9 +594,9 @@ impl World {
             self.apply(Op::n1(K::ClearWeakLeaf, h))?;
         }
         self.apply(Op::n0(K::FinCycle))?;
-        let cnt = self.metrics.total_gc_count();
-        if cnt != nreach + extra {
-            viol!("c02.shell_not_released", "one full cycle after the last weak pointer to a shell was cleared total_gc_count() = {cnt}, expected {}", nreach + extra);
+        let cnt = talloc::gc_live_count_range(self.base, self.base + 120);
+        if cnt != nreach {
+            viol!("c02.shell_not_released", "one full cycle after the last weak pointer to a shell was cleared {cnt} allocations are still held, expected {nreach}");
         }
         self.finish()
     }
